@@ -3,6 +3,7 @@ package main
 import (
 	"errors"
 	"fmt"
+	"io"
 	"math"
 	"reflect"
 	"strings"
@@ -64,6 +65,7 @@ type (
 	}
 	goT     struct{ s string }
 	fmtT    struct{ payload string }
+	fmtWST  struct{ payload string }
 	recFmtT struct{ tag string }
 	errFmtT struct{ msg string }
 	strErrT struct{ msg string }
@@ -97,6 +99,11 @@ func (e wrapErrT) Error() string             { return e.msg + ": " + e.inner.Err
 func (e wrapErrT) Unwrap() error             { return e.inner }
 func (g goT) GoString() string               { return "go:" + g.s }
 func (f fmtT) Format(s fmt.State, verb rune) { fmt.Fprintf(s, "F<%s|%c>", f.payload, verb) }
+func (f fmtWST) Format(s fmt.State, verb rune) {
+	io.WriteString(s, "W<")
+	io.WriteString(s, f.payload)
+	s.Write([]byte(">"))
+}
 func (f recFmtT) Format(s fmt.State, verb rune) {
 	fmt.Fprintf(s, "R[%s %c", f.tag, verb)
 	for _, c := range flagChars {
@@ -262,6 +269,8 @@ func universe() []Val {
 	add(m("(*errT)(nil)", true, func(v int) interface{} { return (*errT)(nil) }))
 	add(m("GoStringer", true, func(v int) interface{} { return goT{secStrLF[v]} }))
 	add(m("Formatter", true, func(v int) interface{} { return fmtT{secStrLF[v]} }))
+	add(m("Formatter via io.WriteString", true, func(v int) interface{} { return fmtWST{secStrLF[v]} }))
+	add(m("[]Formatter via io.WriteString", true, func(v int) interface{} { return []interface{}{safeT("ok"), fmtWST{secStr[v]}, secPlain[v]} }))
 	add(m("recFormatter", true, func(v int) interface{} { return recFmtT{secPlain[v]} }))
 	add(m("error+Formatter", true, func(v int) interface{} { return errFmtT{secStr[v]} }))
 	add(m("error+Stringer", true, func(v int) interface{} { return strErrT{secStr[v]} }))
